@@ -15,7 +15,7 @@ def run_chunk(arg):
     for ast in chunk:
         expected = progs.ref(ast)
 
-        def scenario(prefix, ast=ast):
+        def scenario(prefix, ast=ast, fresh=False):
             env = evloop.Env(prefix)
             observed = []
             key2call = {}
@@ -38,6 +38,8 @@ def run_chunk(arg):
             env.hooks.append(hook)
             try:
                 o1 = env.run(progs.build(ast))
+                if fresh:
+                    env.reopen_backend()  # the second execution is another process: a new backend object on the same database
                 o2 = env.run(progs.build(ast)) if want == "C20" else None
                 for job, key in live:
                     if job.call_hash:
@@ -61,10 +63,11 @@ def run_chunk(arg):
             nrows += len(res["snap"]["nodes"])
             nlinks += len(res["snap"]["argres"])
             for kind, detail in res["viol"][:3]:
-                viol.append((kind, {"ast": ast, "choices": choices}, f"program {ast!r} schedule {choices}: {detail}"))
+                viol.append((kind, {"ast": ast, "choices": choices, "fresh_backend": fresh_}, f"program {ast!r} schedule {choices}{' (second execution on a new backend object)' if fresh_ else ''}: {detail}"))
 
-        st = evloop.explore(scenario, bound, 10**9, on_exec, selfcheck=(ast is chunk[0]))
-        stats.merge(st)
+        for fresh_ in ((False, True) if want == "C20" else (False,)):
+            st = evloop.explore(lambda p, f=fresh_: scenario(p, fresh=f), bound, 10**9, on_exec, selfcheck=(ast is chunk[0]))
+            stats.merge(st)
     best = {}
     for sig, case, d in viol:
         if sig not in best:
